@@ -41,6 +41,16 @@ def _cases(tier, rng):
         yield {'kind': 'mux', 'term': [pre, ['roll', 2, 1, [['to_list']]]], 'items': [1, 2, 3, 4, 5]}
         yield {'kind': 'plain', 'term': [pre, ['batch', 2]], 'items': [1, 2, 3, 4, 5, 6, 7]}
     n = {'quick': 1500, 'thorough': 12000, 'search': 600}[tier]
+    # the same promptness on ordinary observables, also when the source pushes its items from inside the current-thread scheduler
+    # (rx.from_, every reader of rxsci): what an item produces is delivered before the next item is taken
+    for term in ([['map', ['range_list']], ['flat_map']], [['batch', 2], ['flat_map']], [['map', ['mod', 4]], ['map', ['range_list']], ['flat_map'], ['count', False]]):
+        yield {'kind': 'plain', 'term': term, 'items': [1, 2, 3, 4, 5], 'tramp': True}
+    for _ in range({'quick': 150, 'thorough': 1500, 'search': 60}[tier]):
+        g = muxgen.Gen(rng, {'dual_only': True, 'splitters': False, 'nest': 1, 'mux_only_ops': False, 'max_len': 4})
+        term, _ = g.pipe('int', 1, n=rng.choice([1, 2, 3]))
+        c = {'kind': 'plain', 'term': term, 'items': muxgen.gen_items(rng)}
+        yield c
+        yield dict(c, tramp=True)
     for _ in range(n):
         r = rng.random()
         flat = []
